@@ -91,7 +91,15 @@ struct VecRunner {
 		if(o.name == "swap") { swap(c, sl.at(s)); return 0; }
 		return -999;
 	}
-	long long equal() { if constexpr (KIND == 0) return sl.at(1) == sl.at(2) ? 1 : 0; else return -1; }
+	// == and != in both directions have to tell the same story
+	long long equal() {
+		if constexpr (KIND == 0) {
+			const C &a = sl.at(1), &b = sl.at(2);
+			bool e = a == b;
+			if((b == a) != e || (a != b) == e || (b != a) == e) return -7;
+			return e ? 1 : 0;
+		} else return -1;
+	}
 	void end() { sl.destroy(1); sl.destroy(2); }
 };
 
